@@ -883,6 +883,278 @@ def search_shape(ctx, cases):
 
 
 # ----------------------------------------------------------------------------------------------
+# ISO 15924 code -> Script (Script::from_iso15924_tag / Script::from_str): letter case and variant codes
+
+# variant code -> the script it is a variant of.  Written from the ISO 15924 code list (the same rows as
+# lean/RbModel/Spec/ScriptAlias.lean), NOT read from the crate.
+ISO_VARIANTS = {"Qaai": "Zinh", "Qaac": "Copt", "Aran": "Arab", "Cyrs": "Cyrl", "Geok": "Geor", "Hans": "Hani", "Hant": "Hani",
+                "Jamo": "Hang", "Latf": "Latn", "Latg": "Latn", "Syre": "Syrc", "Syrj": "Syrc", "Syrn": "Syrc"}
+
+
+def case_patterns(code):
+    """the 16 spellings of a four-letter code"""
+    return ["".join(ch.upper() if m >> i & 1 else ch.lower() for i, ch in enumerate(code)) for m in range(16)]
+
+
+def rand_case(r, code, canonical_share=8):
+    """a spelling of `code`; the canonical one (one capital, three small letters) only once in `canonical_share`"""
+    if r.chance(1, canonical_share):
+        return code
+    return r.choice([p for p in case_patterns(code) if p != code])
+
+
+def iso_expected(code):
+    """what a well-formed four-letter code (any case) must select: the parent of a variant code, else itself"""
+    t = code[0].upper() + code[1:].lower()
+    return ISO_VARIANTS.get(t, t)
+
+
+def iso_reference(t):
+    """hb_script_from_iso15924_tag as HarfBuzz documents it, in python (None = rejected): the null tag is invalid; the case is
+    adjusted to one capital + three small letters; a variant code is its parent; a tag that then looks like a script code
+    (first byte 0x40..0x5F, the others 0x60..0x7F) is that script; anything else is Zzzz"""
+    if t == 0:
+        return None
+    b = [(t >> 24) & 0xDF, (t >> 16) & 0xDF | 0x20, (t >> 8) & 0xDF | 0x20, t & 0xDF | 0x20]
+    adj = (b[0] << 24) | (b[1] << 16) | (b[2] << 8) | b[3]
+    for v, parent in ISO_VARIANTS.items():
+        if adj == tg(v):
+            return tg(parent)
+    if 0x40 <= b[0] <= 0x5F and all(0x60 <= x <= 0x7F for x in b[1:]):
+        return adj
+    return tg("Zzzz")
+
+
+def str_reference(bs):
+    """Script::from_str: the empty string is an error, else the first four bytes padded with spaces as the tag"""
+    if not bs:
+        return None
+    bs = (bs + b"    ")[:4]
+    return iso_reference(tg(bs))
+
+
+def script_iso_lines(r, scripts, n_random):
+    """requests for the script-iso stream with their class: every script constant of the crate and every variant code in all
+    16 letter-case spellings; the same with one byte pushed just outside the letters; garbage; strings of every length"""
+    lines, cls = [], {}
+    def add(ln, c):
+        lines.append(ln); cls.setdefault(ln, c)
+    codes = list(scripts) + [c for c in ISO_VARIANTS if c not in scripts]
+    for c in codes:
+        kind = "variant" if c in ISO_VARIANTS else "constant"
+        for p in case_patterns(c):
+            add(f"scriptiso {tg(p)}", kind + (":canonical" if p == c else ":other-case"))
+            add(f"scriptstr {hx(p)}", "str-" + kind + (":canonical" if p == c else ":other-case"))
+    edge = [0x00, 0x1F, 0x20, 0x2D, 0x30, 0x39, 0x40, 0x41, 0x5A, 0x5B, 0x5F, 0x60, 0x61, 0x7A, 0x7B, 0x7F, 0x80, 0xC1, 0xE1, 0xFF]
+    for c in codes:
+        for _ in range(2):
+            b = bytearray(rand_case(r, c, 4).encode())
+            b[r.below(4)] = r.choice(edge)
+            add(f"scriptiso {tg(bytes(b))}", "one-byte-off")
+    for t in (0, 1, 0x20202020, 0x00202020, 0xFFFFFFFF, 0x41414141, 0x61616161, 0x5A7A7A7A, 0x40606060, 0x5B7B7B7B, 0xDFDFDFDF):
+        add(f"scriptiso {t}", "edge")
+    for _ in range(n_random):
+        k = r.below(4)
+        if k == 0:
+            add(f"scriptiso {r.below(1 << 32)}", "random-u32")
+        elif k == 1:
+            add(f"scriptiso {tg(bytes(r.choice(edge + list(range(0x41, 0x5B)) + list(range(0x61, 0x7B))) for _ in range(4)))}", "random-bytes")
+        elif k == 2:
+            c = rand_case(r, r.choice(codes), 4)
+            s = r.choice([c[:r.below(4)], c + rand_alnum(r, r.range(1, 4)), c[:r.range(1, 3)] + r.choice(MULTI), r.choice(MULTI) + c,
+                          c + "-" + r.choice(REGIONS), " " + c, c[:3] + " ", c[:2], rand_text(r, r.range(0, 6)), c[:3] + r.choice(MULTI)])
+            add(f"scriptstr {hx(s)}", "str-cut-or-long" if s else "str-empty")
+        else:
+            c = r.choice(list(ISO_VARIANTS))
+            add(f"scriptstr {hx(rand_case(r, c, 16))}", "str-variant:other-case")
+    add("scriptstr x", "str-empty")
+    return lines, cls
+
+
+def stream_script_iso(ctx, r, scripts):
+    lines, cls = script_iso_lines(r, scripts, ctx.budget(4000, 200000))
+
+    def classify(ln, out):
+        ks = [cls.get(ln, "?")]
+        if out in ("none", "err"):
+            ks.append("reply:" + out)
+        elif out.isdigit():
+            ks.append("reply:Zzzz" if int(out) == tg("Zzzz") else "reply:script")
+        return ks
+    return ctx.correspond("script-iso", lines=lines, classify=classify, canon=canon)
+
+
+def search_script_garbage(ctx, shim, r, scripts, n):
+    """every request class of the script-iso stream (one byte just outside the letters, edge tags, random tags, strings of every
+    length with multi-byte characters) judged by the python reference of the documented behaviour"""
+    lines, cls = script_iso_lines(r, scripts, n)
+    outs = vlib.run_lines(shim, lines)
+    bad, shown, dist = 0, set(), {}
+    for ln, o in zip(lines, outs):
+        t = ln.split()
+        if t[0] == "scriptiso":
+            want = iso_reference(int(t[1]))
+            call = f"Script::from_iso15924_tag(Tag(0x{int(t[1]):08X}))"
+            wants = "none" if want is None else str(want)
+        else:
+            bs = bytes.fromhex(t[1][1:])
+            want = str_reference(bs)
+            call = f"Script::from_str({bs.decode('utf-8')!r})"
+            wants = "err" if want is None else str(want)
+        k = cls.get(ln, "?").split(":")[0]
+        dist[k] = dist.get(k, 0) + 1
+        if o != wants:
+            bad += 1
+            if len(shown) < 3 and k not in shown:
+                shown.add(k)
+                ctx.violation(f"{call} gives {untag(int(o)) if o.isdigit() else o!r}, expected "
+                              f"{untag(int(wants)) if wants.isdigit() else wants!r} (null tag invalid; case adjusted; variant code "
+                              f"-> parent; a tag of four letter-like bytes is itself, anything else Zzzz)",
+                              {"stage": "search", "stream": "script-reference", "request": ln, "call": call, "expected": wants,
+                               "observed": o})
+    ctx.note_search("script-reference", len(lines), len(lines), mismatches=bad, distribution=dist,
+                    rule="the requests of the script-iso stream (all codes in 16 spellings, one byte pushed just outside the letter "
+                         "ranges, edge and random tags, cut / long / multi-byte strings, the empty string) judged by a python "
+                         "transcription of hb_script_from_iso15924_tag's documented behaviour and of Tag::from_bytes_lossy")
+
+
+def search_script_case(ctx, shim, scripts):
+    """oracle on the public API alone: a four-letter script code selects the same Script in every letter case; a variant
+    code selects the script it is a variant of (table written from ISO 15924)"""
+    reqs = []
+    for c in list(scripts) + [c for c in ISO_VARIANTS if c not in scripts]:
+        for p in case_patterns(c):
+            reqs.append((f"scriptiso {tg(p)}", p, f"Script::from_iso15924_tag(Tag::from_bytes(b\"{p}\"))"))
+            reqs.append((f"scriptstr {hx(p)}", p, f"Script::from_str(\"{p}\")"))
+    outs = vlib.run_lines(shim, [q[0] for q in reqs], nproc=1)
+    bad = 0
+    shown = set()
+    for (ln, p, call), o in zip(reqs, outs):
+        want = iso_expected(p)
+        if o != str(tg(want)):
+            bad += 1
+            key = (want, ln.split()[0])
+            if len(shown) < 4 and key not in shown:
+                shown.add(key)
+                got = untag(int(o)) if o.isdigit() else o
+                ctx.violation(f"{call} gives the script '{got}', expected '{want}' (script codes are case-insensitive"
+                              + (f"; '{p[0].upper() + p[1:].lower()}' is a variant code of '{want}'" if want.lower() != p.lower() else "") + ")",
+                              {"stage": "search", "stream": "script-case", "request": ln, "call": call, "expected": str(tg(want)),
+                               "expected_script": want, "observed": o})
+    ctx.note_search("script-case", len(reqs), len(reqs), mismatches=bad, variant_codes=len(ISO_VARIANTS),
+                    rule="Script::from_iso15924_tag and Script::from_str on every script constant of the crate and every ISO 15924 "
+                         "variant code (Qaai Qaac Aran Cyrs Geok Hans Hant Jamo Latf Latg Syre Syrj Syrn; parent table written from "
+                         "the standard) in all 16 letter-case spellings: the constant itself resp. the variant's parent")
+
+
+ALIAS_EXTRA = ["Deva", "Thai", "Mymr", "Nkoo"]      # plain scripts, for the case-insensitivity half alone
+
+
+def alias_cases(ctx, r, shim):
+    """fonts with script records for the PARENT of a variant code (and the fall-backs, and sometimes a record named like the
+    variant code itself), requests that spell the script as the variant code / the parent / a plain script in a random
+    letter case.  `script` = the spelling handed to the API, `parent` = the script that must be selected."""
+    import fontbuild
+    codes = list(ISO_VARIANTS) + sorted(set(ISO_VARIANTS.values())) + ALIAS_EXTRA
+    parents = sorted(set(iso_expected(c) for c in codes))
+    tl = tag_lists(shim, parents, SEL_LANGS)
+    cases = []
+    for c in codes:
+        parent = iso_expected(c)
+        own = tl[(parent, "-")][0]
+        for _ in range(ctx.budget(8, 200)):
+            l = r.choice(SEL_LANGS)
+            st, lt = tl[(parent, l)]
+            # a record named like the request's own spelling must never be looked for: sometimes the font has one
+            noise = [tg(c.lower())] if c != parent and r.chance(1, 3) else []
+            universe = list(dict.fromkeys(own + [tg("DFLT"), tg("dflt"), tg("latn")]))
+            present = [t for t in own if r.chance(4, 5)] + [t for t in universe if t not in own and r.chance(2, 3)]
+            present = list(dict.fromkeys(present + noise)) or [own[0]]
+            lang_universe = list(dict.fromkeys(lt + [tg("dflt"), tg("AAA "), tg("ZZZ ")]))
+            gsub = rand_table(r, 0, universe, lang_universe, present_scripts=present)
+            gpos = None if r.chance(1, 3) else rand_table(r, 1, universe, lang_universe, present_scripts=present if r.chance(1, 2) else None)
+            if r.chance(1, 10):
+                gsub, gpos = None, rand_table(r, 1, universe, lang_universe, present_scripts=present)
+            cases.append({"gsub": gsub, "gpos": gpos, "script": rand_case(r, c), "code": c, "parent": parent, "lang": l,
+                          "own_present": any(t in present for t in own), "noise": bool(noise)})
+    for c in cases:
+        c["hex"] = fontbuild.build(recipe_of(c["gsub"], c["gpos"])).hex()
+        c["abs"] = abstract(c["gsub"]) + "/" + abstract(c["gpos"])
+    return cases
+
+
+def stream_alias_plan(ctx, cases):
+    """the builder's selection for requests that spell the script as a variant code / in another letter case: model
+    (from_iso15924_tag model, then the selection model) against the crate; the shaper name is compared only where the model
+    knows the script's shaper"""
+    lines = [f"tagplan {c['hex']} {c['abs']} 0 {tg(c['script'])} {'-' if c['lang'] == '-' else hx(c['lang'])}" for c in cases]
+    kind = {ln: ("variant" if c["code"] != c["parent"] else "plain") + (":canonical" if c["script"] == c["code"] else ":other-case")
+            for ln, c in zip(lines, cases)}
+
+    def canon_noshaper(x):
+        x = canon(x)
+        f = x.split()
+        return "* " + " ".join(f[1:]) if len(f) == 3 else x
+    return ctx.correspond("tag-select", lines=lines, classify=lambda ln, out: ["tagplan-spelled", "tagplan-spelled:" + kind[ln]],
+                          canon=canon_noshaper)
+
+
+def alias_shape_got(reply):
+    m = reply.split()
+    if len(m) != 6 or m[0] != "ok":
+        return None
+    g = [x.split(":") for x in m[2:]]
+    return {"A": int(g[0][0]), "B": int(g[1][0]), "C": int(g[2][3]), "D": int(g[3][3])}
+
+
+def search_alias_shape(ctx, cases):
+    """shape() with the script spelled as a variant code / in another letter case must apply the features of the records the
+    PARENT script selects (selection computed by the model for the parent's canonical code, glyphs from the recipe)"""
+    shim = vlib.build_harness()
+    model = vlib.build_model()
+    lg = lambda c: "-" if c["lang"] == "-" else hx(c["lang"])
+    plans = vlib.run_lines(model, [f"tagplan {c['hex']} {c['abs']} 0 {tg(c['parent'])} {lg(c)}" for c in cases])
+    groups = [[f"font g{i} {c['hex']}", f"shape g{i} l {c['script']} {lg(c)} 0 0 - - - {TEXT}", f"fontdrop g{i}"]
+              for i, c in enumerate(cases)]
+    outs = vlib.run_groups(shim, groups)
+    bad, nontriv, judged = 0, 0, 0
+    dist, shown = {}, set()
+    for c, p, o in zip(cases, plans, outs):
+        f = p.split()
+        if len(f) != 3 or p.startswith("panic"):
+            continue
+        judged += 1
+        sel = [parse_sel(f[1]), parse_sel(f[2])]
+        exp = expected_glyphs(c["gsub"], c["gpos"], sel)
+        got = alias_shape_got(o[1])
+        kind = ("variant" if c["code"] != c["parent"] else "plain") + (":canonical" if c["script"] == c["code"] else ":other-case")
+        dist[kind] = dist.get(kind, 0) + 1
+        if c["noise"]:
+            dist["font has a record named like the variant code"] = dist.get("font has a record named like the variant code", 0) + 1
+        if exp != {"A": PROBE_A, "B": PROBE_B, "C": 500, "D": 500} and c["own_present"]:
+            nontriv += 1
+        if got != exp:
+            bad += 1
+            if len(shown) < 3 and c["code"] not in shown:
+                shown.add(c["code"])
+                ctx.violation(f"shape() with the script given as '{c['script']}' ("
+                              + (f"ISO 15924 variant code of '{c['parent']}'" if c["code"] != c["parent"] else f"'{c['parent']}' in another letter case")
+                              + f") language {c['lang']} does not apply the features of the records script '{c['parent']}' selects: "
+                              f"expected {exp}, got {got}",
+                              {"stage": "search", "stream": "alias-shape", "font_hex": c["hex"], "abstract": c["abs"],
+                               "script": c["script"], "parent": c["parent"], "lang": c["lang"], "model_selection_for_parent": p,
+                               "expected": exp, "observed": o[1]})
+    ctx.note_search("alias-shape", len(cases), nontriv, distribution=dist, mismatches=bad, judged=judged,
+                    rule="select-shape fonts (one naming feature per script record x language system, GSUB and GPOS) with records "
+                         "for the OpenType tags of the PARENT script of an ISO 15924 variant code, the fall-backs DFLT / dflt / latn "
+                         "and, one time in three, a record named like the variant code itself; the request spells the script as the "
+                         "variant code, as its parent, or as a plain script, in a random one of the 16 letter-case spellings "
+                         "(canonical 1/8); shape() of the 4 probe glyphs must show exactly the features of the records the parent "
+                         "script selects (selection by the model for the parent's canonical code, expected glyphs from the recipe); "
+                         "non-trivial = some probe changes and the font has a record of the parent's own tag")
+
+
+# ----------------------------------------------------------------------------------------------
 # fonts whose FeatureList holds SEVERAL records with one tag (one per language system, shared ones, records no
 # language system lists), as pan-CJK fonts do for 'vert' / 'locl'; every direction; the features each direction enables
 
@@ -1546,6 +1818,7 @@ def run(ctx):
     scripts = script_constants()
     stream_tags(ctx, ctx.rng("tags"), rows, pre, branch, scripts)
     stream_prims(ctx, ctx.rng("prims"), rows, pre, branch, scripts)
+    stream_script_iso(ctx, ctx.rng("script-iso"), scripts)
     cases = select_cases(ctx, ctx.rng("select-fonts"), shim)
     mcases = multi_cases(ctx, ctx.rng("multi-fonts"), shim)
     stream_select(ctx, ctx.rng("select"), cases)
@@ -1555,7 +1828,12 @@ def run(ctx):
     search_bcp47(ctx, shim, rows)
     search_script_tags(ctx, shim, scripts)
     search_total(ctx, shim, ctx.rng("total"), rows, branch, ctx.budget(4000, 300000))
+    search_script_case(ctx, shim, scripts)
+    search_script_garbage(ctx, shim, ctx.rng("script-garbage"), scripts, ctx.budget(4000, 200000))
     search_shape(ctx, cases)
+    acases = alias_cases(ctx, ctx.rng("alias-fonts"), shim)
+    stream_alias_plan(ctx, acases)
+    search_alias_shape(ctx, acases)
     search_resolve_shape(ctx, mcases)
     search_resolve_plan(ctx, reqs)
 
@@ -1572,6 +1850,18 @@ def replay(ctx, rp):
         g = [x.split(":") for x in m[2:]]
         got = {"A": int(g[0][0]), "B": int(g[1][0]), "C": int(g[2][3]), "D": int(g[3][3])}
         return 0 if got == rp["expected"] else 1
+    if rp.get("stream") == "alias-shape":
+        lang = "-" if rp["lang"] == "-" else hx(rp["lang"])
+        o = vlib.run_groups(shim, [[f"font f {rp['font_hex']}", f"shape f l {rp['script']} {lang} 0 0 - - - {TEXT}",
+                                    f"shape f l {rp['parent']} {lang} 0 0 - - - {TEXT}"]], nproc=1)[0]
+        print(f"script '{rp['script']}':", o[1]); print(f"script '{rp['parent']}':", o[2])
+        print("expected:", rp["expected"], "(selection by the model for the parent:", rp["model_selection_for_parent"], ")")
+        return 0 if alias_shape_got(o[1]) == rp["expected"] else 1
+    if rp.get("stream") in ("script-case", "script-reference"):
+        a = vlib.run_lines(shim, [rp["request"]], nproc=1)[0]
+        print(rp["call"], "->", a, f"('{untag(int(a))}')" if a.isdigit() else "", "expected", rp["expected"],
+              f"('{rp['expected_script']}')" if "expected_script" in rp else "")
+        return 0 if a == rp["expected"] else 1
     if rp.get("stream") == "resolve-shape":
         lang = "-" if rp["lang"] == "-" else hx(rp["lang"])
         o = vlib.run_groups(shim, [[f"font f {rp['font_hex']}", f"shape f {rp['dir']} {rp['script']} {lang} 0 0 - - - {MULTI_TEXT}"]], nproc=1)[0]
